@@ -12,6 +12,8 @@ import RV.Base.Proto
   N-Triples lines; terms as  i:IRI | b:LABEL | l:LEX:DT|*:LANG|*  (code points):
     ntparse LINE       -> ok S P O | none        the W3C line grammar applied to a line rdflib wrote
     ntrow S P O        -> code points of the line the writer model (`_nt_row`) produces
+    ntdoc TEXT         -> ok N S P O S P O … | none   the whole document through the model reader (`readDoc`): line grammar
+                          per line, labels through the per-document table; blank nodes come back as b:<creation number>
   Base relativisation (code points):
     strip BASE IRI     -> rel | abs      `_strippable_base` (Serializer.relativize: RDF/XML writers)
     stript BASE IRI    -> rel | abs      `RecursiveSerializer.relativize` (turtle, longturtle, n3)
@@ -176,7 +178,19 @@ def stepChoice : List String → Option String
     | _, _ => none
   | _ => none
 
+def showRTerm : RTerm → String
+  | .iri i => "i:" ++ showCps i
+  | .bnode n => "b:" ++ toString n
+  | .lit lex dt lang => "l:" ++ showCps lex ++ ":" ++ showOptCps dt ++ ":" ++ showOptCps lang
+
+def showDoc : Option (List Str × List RTriple) → String
+  | none => "none"
+  | some (_, ts) => "ok " ++ toString ts.length ++
+      String.join (ts.map (fun t => " " ++ showRTerm t.1 ++ " " ++ showRTerm t.2.1 ++ " " ++ showRTerm t.2.2))
+
 def step' (s : Unit) : List String → Unit × String
+  | ["ntdoc", a] => match cps? a with
+    | some x => (s, showDoc (readDoc [] (splitLines [] x))) | none => (s, "bad-op")
   | "choice" :: rest => match stepChoice rest with
     | some r => (s, r) | none => (s, "bad-op")
   | l => step s l
